@@ -265,3 +265,14 @@ def _mk_create_zone(label, fields, min_obl):
 
 _mk_create_zone("the alias map names a zone that has no data field", lambda: {}, 1)
 _mk_create_zone("zone data present", lambda: {"Some/Zone": _Field()}, 2)
+
+
+@contract(H + "read_offset_any", "C20", name="reader.read_offset on any byte stream: an offset within +-18 h read from at most 4 bytes, or InvalidPyodaDataError / ValueError (translated at the loading boundary); never any other exception")
+def _(c):
+    c.arg("stream", AnyStreamG())
+    c.setup = _setup
+    c.crosscheck = 0
+    c.allow_mutation = lambda obj, n: True
+    c.pure = False
+    c.returns(lambda a, r: And(V.isinst(r[0], "Offset"), V.off_seconds(r[0]) >= -64800, V.off_seconds(r[0]) <= 64800, r[1] >= 1, r[1] <= 4, r[1] <= V.fld(a.stream, "left")))
+    c.raises(_ipde(), ValueError)
